@@ -1099,7 +1099,7 @@ func TestVerif_C27(t *testing.T) {
 		c.Rule("Per parameter P (every config-tagged field of felix/config.Config for which the candidate pool yields a valid value different from the default): value classes {absent, valid1, valid2, invalid (if P's parser rejects anything), none}. " +
 			"A: every single source and every ordered pair of the 6 sources x all class pairs x 3 key spellings (canonical/lower/UPPER), for EVERY parameter. " +
 			"B: the full product classes^6 over the six sources for one representative parameter per (parser type, local, die-on-fail, non-zero, has-invalid) class. " +
-			"C: for one representative per flag class: every assignment over a source subset, loaded incrementally with UpdateFrom/OverrideParam in EVERY order of the set sources, each step checked, plus one replace/clear step per source. " +
+			"C: for one representative per flag class: every assignment over a source subset (quick: internal, env, per-host, global x {valid, invalid, none}; thorough: all but per-selector x {valid, invalid-or-valid2, none}), loaded incrementally with UpdateFrom/OverrideParam in EVERY order of the set sources, each step checked, plus one replace/clear step per source. " +
 			"D: for the same representatives: two or three case variants of P's key inside one source map with every class assignment, optionally one other source setting P, under EVERY key read order (hook in resolve's loop); and two different parameters in one map under both orders. " +
 			"Non-trivial = at least two sources set P, or an ignored fatal value exists, or a datastore source sets a local-only P, or duplicate keys.")
 		c.Assume("Param.Parse(raw) of the real code is trusted to give 'the parsed value' of a valid raw string and to decide validity; defaults are read from a fresh config.New(); zero values are the Go zero values of the field types.")
@@ -1143,7 +1143,7 @@ func TestVerif_C27(t *testing.T) {
 				}
 				work <- func(w *c27W) { w.partC(p, []int{0, 1, 3, 5}, cl) }
 			} else {
-				work <- func(w *c27W) { w.partC(p, []int{0, 1, 2, 3, 4, 5}, []string{"v1", p.Classes[len(p.Classes)-2], "none"}) }
+				work <- func(w *c27W) { w.partC(p, []int{0, 1, 2, 3, 5}, []string{"v1", p.Classes[len(p.Classes)-2], "none"}) }
 			}
 		}
 		close(work)
